@@ -99,6 +99,8 @@ void sa_reset(const sa_cfg_t *c)
     (void)high_water;
 }
 
+void sa_set_fill(int fill) { cfg.fill = fill; }
+
 int sa_owns(const void *p)
 {
     uintptr_t a = (uintptr_t)p;
